@@ -108,7 +108,16 @@ def record(path, recs, ops, title, box):
     """Run the access history `ops` on a real SystemGro -> events"""
     from gaddlemaps.components import SystemGro
     import numpy as np
-    s = SystemGro(path)
+    if len(recs) % 3 == 1:
+        # loaded through a relative name; the caller then changes directory (the view holds its file, not a name)
+        here = os.getcwd()
+        try:
+            os.chdir(os.path.dirname(path))
+            s = SystemGro(os.path.basename(path))
+        finally:
+            os.chdir(here)
+    else:
+        s = SystemGro(path)
     ev = []
     boxm = np.array(box) if len(box) == 9 else np.diag(box)
     if len(box) == 9:
